@@ -135,7 +135,7 @@ def _harness(desc, name, bools, rets, r0, r1, r2):
     NOTES.info = dict(outline=repr(desc)[:160], crash_entries=pts, steps=len(ref['trace']))
 
 
-GROUP = {'quick': 1, 'thorough': 4}
+GROUP = {'quick': 1, 'thorough': 2}
 TIERS = ['quick', 'thorough']
 
 
